@@ -15,16 +15,17 @@ import (
 	"github.com/cedar-policy/cedar-go/verif/c07"
 	"github.com/cedar-policy/cedar-go/verif/c08"
 	"github.com/cedar-policy/cedar-go/verif/c09"
+	"github.com/cedar-policy/cedar-go/verif/c10"
 	"github.com/cedar-policy/cedar-go/verif/c11"
 	"github.com/cedar-policy/cedar-go/verif/c12"
 	"github.com/cedar-policy/cedar-go/verif/c13"
-	"github.com/cedar-policy/cedar-go/verif/c18"
-	"github.com/cedar-policy/cedar-go/verif/c10"
+	"github.com/cedar-policy/cedar-go/verif/c15"
 	"github.com/cedar-policy/cedar-go/verif/c16"
 	"github.com/cedar-policy/cedar-go/verif/c17"
-	"github.com/cedar-policy/cedar-go/verif/c15"
+	"github.com/cedar-policy/cedar-go/verif/c18"
 	"github.com/cedar-policy/cedar-go/verif/c20"
 	"github.com/cedar-policy/cedar-go/verif/core"
+	"github.com/cedar-policy/cedar-go/verif/oracle"
 )
 
 var registry = map[string]func() *core.Check{
@@ -53,6 +54,9 @@ func main() {
 	if len(os.Args) < 2 {
 		fmt.Fprintln(os.Stderr, "usage: mc <id> quick|thorough | mc <id> --replay <file>")
 		os.Exit(2)
+	}
+	if os.Args[1] == "oracle" {
+		os.Exit(oracle.Main())
 	}
 	mk, ok := registry[os.Args[1]]
 	if !ok {
